@@ -137,7 +137,17 @@ type vfxCfg struct {
 
 	CacheSize uint32       // route cache of the HTTPServer (0 = off)
 	MemCache  *vfxMemCache // memoryCache of every pool (nil = none)
+
+	// Mirror: the Proxy gets a mirrorPool that matches requests carrying the header
+	// "X-Vf-Mirror: 1"; its server is the same loopback backend under the path prefix /vfmirror, so
+	// that mirrored copies are recorded apart from what the selected backend receives
+	Mirror bool
 }
+
+const (
+	vfxMirrorPrefix = "/vfmirror"
+	vfxMirrorHeader = "X-Vf-Mirror"
+)
 
 // vfxMemCache is the memoryCache section of a pool.
 type vfxMemCache struct {
@@ -216,6 +226,10 @@ func (c *vfxCfg) pipelineYAML(backendHostPort string) string {
 			fmt.Fprintf(&b, "    filter:\n      headers:\n        X-Vf-Pool:\n          exact: %s\n", strconv.Quote(p.FilterValue))
 		}
 	}
+	if c.Mirror {
+		fmt.Fprintf(&b, "  mirrorPool:\n    servers:\n    - url: http://%s%s\n    filter:\n      headers:\n        %s:\n          exact: \"1\"\n",
+			backendHostPort, vfxMirrorPrefix, vfxMirrorHeader)
+	}
 	if c.RespAdaptor != "" {
 		b.WriteString("- name: respadapt\n  kind: ResponseAdaptor\n")
 		switch c.RespAdaptor {
@@ -245,6 +259,9 @@ type vfxScript struct {
 	// chunked), sends the first CutAt bytes (the last chunk torn in the middle) and drops the connection
 	CutAt       int
 	CutDeclared bool
+	// CutNoTerminator (chunked promise only): every chunk is complete, the connection is dropped
+	// where the terminating zero-length chunk should come (CutAt is ignored)
+	CutNoTerminator bool
 	// Pre: what the backend does with the first len(Pre) arrivals of the request (attempts):
 	// a status code (answered with a tiny body) or 0 = read the request, then drop the connection
 	Pre []int
@@ -433,8 +450,9 @@ type vfxRig struct {
 	seen       []*vfxSeen
 	arrivals   map[string]int // request id -> how many times it reached the backend
 	mapper     *vfxMapper
-	lastReused bool // the latest request went out on a kept-alive connection
-	reqID      int  // id of the latest request sent (tag X-Vf-Req-Id); received() only returns its records
+	mirrorSeen []*vfxSeen // what arrived under /vfmirror (copies sent by the mirrorPool)
+	lastReused bool       // the latest request went out on a kept-alive connection
+	reqID      int        // id of the latest request sent (tag X-Vf-Req-Id); received() only returns its records
 }
 
 func (r *vfxRig) backendHandler(w http.ResponseWriter, req *http.Request) {
@@ -442,6 +460,16 @@ func (r *vfxRig) backendHandler(w http.ResponseWriter, req *http.Request) {
 	s := &vfxSeen{Method: req.Method, RequestURI: req.RequestURI, Path: req.URL.Path, RawQuery: req.URL.RawQuery,
 		Host: req.Host, Header: req.Header.Clone(), Body: body, BodyErr: err,
 		TE: append([]string(nil), req.TransferEncoding...), CL: req.ContentLength}
+	if req.URL.Path == vfxMirrorPrefix || strings.HasPrefix(req.URL.Path, vfxMirrorPrefix+"/") {
+		// a copy sent by the mirrorPool: recorded apart, never part of the script
+		r.mu.Lock()
+		r.mirrorSeen = append(r.mirrorSeen, s)
+		r.mu.Unlock()
+		w.Header().Set("Content-Length", "1")
+		w.WriteHeader(200)
+		_, _ = w.Write([]byte("m"))
+		return
+	}
 	r.mu.Lock()
 	r.seen = append(r.seen, s)
 	sc := r.script
@@ -498,6 +526,17 @@ func (r *vfxRig) backendHandler(w http.ResponseWriter, req *http.Request) {
 				return
 			}
 			bw.WriteString("Transfer-Encoding: chunked\r\n\r\n")
+			if sc.CutNoTerminator {
+				first := len(sc.Body) / 2
+				for _, part := range [][]byte{sc.Body[:first], sc.Body[first:]} {
+					if len(part) > 0 {
+						fmt.Fprintf(bw, "%x\r\n", len(part))
+						_, _ = bw.Write(part)
+						bw.WriteString("\r\n")
+					}
+				}
+				return
+			}
 			first := cut / 2
 			if first > 0 {
 				fmt.Fprintf(bw, "%x\r\n", first)
@@ -620,6 +659,26 @@ func (r *vfxRig) update(cfg *vfxCfg) (err error) {
 	return nil
 }
 
+// updateServer reloads the HTTPServer side with the spec built from cfg, the way runtime.reload
+// does it on a spec update of the HTTPServer object (same mux, new generation of rules, limits and
+// route cache). The pipeline is left alone.
+func (r *vfxRig) updateServer(cfg *vfxCfg) (err error) {
+	defer func() {
+		if p := recover(); p != nil {
+			err = fmt.Errorf("panic while reloading the mux: %v", p)
+		}
+	}()
+	r.hub.inflight.Wait()
+	y := cfg.serverYAML()
+	sspec, err := supervisor.NewSpec(y)
+	if err != nil {
+		return fmt.Errorf("server spec: %v", err)
+	}
+	r.mux.reload(sspec, r.mapper)
+	r.srvYAML = y
+	return nil
+}
+
 // Close uninstalls the case, waits for its handlers and closes what it built.
 func (r *vfxRig) Close() {
 	h := r.hub
@@ -656,7 +715,24 @@ func (r *vfxRig) setScript(sc *vfxScript) {
 	r.mu.Lock()
 	r.script = sc
 	r.seen = nil
+	r.mirrorSeen = nil
 	r.mu.Unlock()
+}
+
+// mirrored returns the copies of the latest request that arrived under /vfmirror so far (the
+// mirrorPool works asynchronously: a copy may arrive later or, when the request context ends
+// first, never).
+func (r *vfxRig) mirrored() []*vfxSeen {
+	r.mu.Lock()
+	defer r.mu.Unlock()
+	var out []*vfxSeen
+	id := strconv.Itoa(r.reqID)
+	for _, s := range r.mirrorSeen {
+		if s.Header.Get("X-Vf-Req-Id") == id {
+			out = append(out, s)
+		}
+	}
+	return out
 }
 
 // received returns what the backend recorded for the latest request sent with do (records of
